@@ -19,10 +19,10 @@ CHECKS = {
             SIM + ": role-table histories (enable/disable/grant/revoke, authority hand-over) with cluster-restart faults and capacity exhaustion, refined against a set model",
             "Seeded operation histories over 3–72 addresses and up to 36 role names, signed by authority / ex-admin / keeper / arbitrary addresses, with LastRestartSlot changes; after every transaction the on-chain has_role / check_role / has_admin answers, member and role counts equal a set model, and every operation's acceptance equals the model's verdict.",
             "trusted: chainsim runtime stub (sysvars, privilege rules)", "§5 C18"),
-    "C19": ("fault_enumeration", "chainsim/scn-admin+scn-exchange",
+    "C19": ("fault_enumeration", "chainsim/scn-admin+scn-exchange+scn-timelock+scn-treasury+scn-lp+scn-competition",
             SIM + ": byzantine twin of every landed privileged transaction (stranger, holder of every other role, other user) executed on a fork of the pre-state",
-            "For every landed privileged transaction of the admin, configuration and exchange scenarios the same transaction re-signed by (a) an address with no role, (b) a holder of every role except the required one, (c) for owner-gated closes another user, is executed on a fork of the pre-state and must fail. Exhaustive over the landed privileged transactions of each run; per-instruction coverage is reported (reach_probes c19_twin:*).",
-            "covers store instructions reached by these scenarios; treasury/timelock/LP/competition twins are in their own scenarios where built; instructions needing absent third-party programs are uncovered", "§5 C19"),
+            "For every landed privileged transaction of the admin, configuration, exchange, timelock, treasury, liquidity-provider and competition scenarios the same transaction re-signed by (a) an address with no role, (b) a holder of every role except the required one, (c) for owner-gated closes another user, is executed on a fork of the pre-state and must fail. Exhaustive over the landed privileged transactions of each run; per-instruction coverage is reported (reach_probes c19_twin:*).",
+            "covers the instructions reached by these scenarios (listed per run under reach_probes c19_twin:*); instructions needing absent third-party programs (token metadata, Pyth, Switchboard), migrations, virtual-inventory and GLV management instructions are not twinned", "§5 C19"),
     "C20": ("exploration", "chainsim/scn-admin",
             SIM + ": policy model vs transaction outcome for config updates by MARKET_KEEPER / MARKET_CONFIG_KEEPER / others, buffers with expiry under clock jumps and delayed application",
             "Single-key, flag and buffer updates by every kind of signer while the updatable markings change; buffers mix updatable and non-updatable entries, change authority, and are applied before/at/after expiry under clock jumps. Outcome must equal the policy model in both directions.",
@@ -107,6 +107,18 @@ CHECKS = {
             SIM + ": a stored feed price lives through a simulated timeline (reports with status / last-update tracking, policy-flag and timeout changes, clock stalls and jumps to the 64-bit extremes); is_market_open is compared with the statement's predicate evaluated in i128 at every step",
             "Unit part: timelines of 20-12000 steps incl. jumps to i64::MIN / i64::MAX and the freshness edges; openness and is_market_open must equal the reference predicate (status not closed under the feed's policy flags, open flag set, and with last-update tracking both the report and the last update no older than the timeout). The on-chain path (reports through the store's feeds and oracle) is the scn-oracle part.",
             "the extreme-timestamp clause is unreachable through u32 report timestamps on chain, hence the unit-level timeline", "§5 C27"),
+    "C30": ("exploration", "chainsim/scn-user",
+            SIM + ": GT mint / burn / exchange-vault histories over 2-6 users with window-boundary clock moves, duplicate and early confirmations, cluster restarts and byzantine signers; balance/supply/cost/rank model and fork probe for split-independence of the minting cost; second scenario mints through real order executions",
+            "After every transaction the buyback-able supply equals the sum of user balances, total minted is monotone, the minting cost equals cost0 x grow^floor(total/step) (BigInt, also by forking the same total in different splits), ranks equal the number of thresholds at or below the balance, exchange deposits land only in the current window and confirmations only after it; order-based minting yields the whole units affordable and leaves the remainder unminted. Known finding: a zero first rank threshold.",
+            "gt_set_exchange_time_window is compiled out without the store's test-only feature: the field is overwritten by the simulator (stub)", "§5 C30"),
+    "C31": ("exploration", "chainsim/scn-user",
+            SIM + ": keeper histories set rank tables and the referred-user discount (incl. exactly 100 % and rejected > 100 %) with byzantine signers and failed attempts; on every reached store state the program's and the SDK's order_fee_discount_factor are evaluated on the same account bytes for every rank and referral flag",
+            "0 <= d <= 100 %, referred >= unreferred, d in {floor, ceil} of 1-(1-a)(1-b) (BigInt), ranks above the maximum rejected, program == SDK on identical bytes; failed keeper attempts change nothing.",
+            "a referred-user discount above 100 % is accepted by the setters (outside the stated domain; reported by a probe)", "§5 C31"),
+    "C33": ("exploration", "chainsim/scn-user",
+            SIM + ": referral histories among 2-6 users (code creation, referrer setting, code transfer / cancel / accept) with delayed, duplicated and lost transactions, stale account choices and byzantine signers; relation model",
+            "Referrers are write-once, never self, never mutual (both orders of A->B / B->A are scheduled); each code has exactly one owner and ownership changes only on accept by the proposed owner; every transaction's outcome equals the model's allow/deny predicate.",
+            "only user<->user and code<->code account substitutions are generated", "§5 C33"),
     "C09": ("exploration", "chainsim/scn-exchange",
             SIM + ": liquidation attempts by the keeper on live positions after price moves; a successful liquidation must close the whole position",
             "Chain part: after every executed increase or non-removing decrease the position must not be liquidatable at the execution prices, every successful liquidation must have been liquidatable under the liquidation thresholds on the pre-state and must remove the whole position, and every successful auto-deleverage must have had a pnl-to-pool factor above the ADL limit, strictly lower it and leave it at or above the configured minimum (pnl factors from the SDK MarketModel of the pre/post account bytes). The reference evaluates check_liquidatable on the SDK's PositionModel of the same account bytes after bringing the fee state up to date with the program's update_fees_state on a fork.",
